@@ -173,6 +173,9 @@ func runC10(p *core.Program, r *core.Report) {
 					if !guarded[ac.Field] {
 						continue
 					}
+					if ac.NodeCall && len(fl.LockSites) == 0 {
+						continue // elements obtained from an enumeration (of this or another instance): enumerations are not point operations
+					}
 					if snapshot && !tl.Written[ac.Field] {
 						continue // a size snapshot of an inner collection (which has its own lock) is not a compound operation
 					}
